@@ -89,7 +89,7 @@ Qed.
 Lemma J_step s e : J s -> J (cstep s e).
 Proof.
   intros [H1 H2 H3 H4]. pose proof (zlen_nonneg (conns s)) as Nc. pose proof (zlen_nonneg (tasks s)) as Nt.
-  destruct e as [id|id a|id|id|id|id|]; cbn [cstep].
+  destruct e as [id|id a|id|id|id|id|id|]; cbn [cstep].
   - destruct (task_stage (tasks s) id) as [[| |a]|] eqn:T; try (constructor; assumption).
     constructor; unfold slots in *; cs; rewrite ?task_set_len; assumption.
   - destruct (task_stage (tasks s) id) as [[| |b]|] eqn:T; try (constructor; assumption).
@@ -115,6 +115,9 @@ Proof.
     + pose proof (conn_del_len _ _ _ C) as L.
       assert (X : (zlen (conn_del (conns s) id) <? tgt s) = true) by (unfold slots in *; lia).
       rewrite X. apply J_failed_to; unfold slots in *; cs; lia.
+    + destruct (zmem id (pend s)); constructor; unfold slots in *; cs; assumption.
+  - destruct (conn_addr (conns s) id) as [a|] eqn:C.
+    + pose proof (conn_del_len _ _ _ C) as L. constructor; unfold slots in *; cs; lia.
     + destruct (zmem id (pend s)); constructor; unfold slots in *; cs; assumption.
   - destruct (timers s >? 0) eqn:E; [|constructor; assumption].
     constructor; rewrite ?spawn_slots; unfold slots in *; cs; lia.
@@ -146,7 +149,7 @@ Qed.
 
 Lemma tgt_step s e : tgt (cstep s e) = tgt s /\ maxf (cstep s e) = maxf s.
 Proof.
-  destruct e as [id|id a|id|id|id|id|]; cbn [cstep];
+  destruct e as [id|id a|id|id|id|id|id|]; cbn [cstep];
     repeat match goal with
            | |- context [match ?x with _ => _ end] => destruct x eqn:?
            end; cs; auto;
@@ -338,10 +341,10 @@ Proof.
 Qed.
 
 Lemma P_step s e :
-  P s -> match e with Disconnect id => task_stage (tasks s) id = None | _ => True end -> P (cstep s e).
+  P s -> match e with Disconnect id => task_stage (tasks s) id = None | Remove _ => False | _ => True end -> P (cstep s e).
 Proof.
   intros HP Hal. pose proof HP as [A B C D].
-  destruct e as [id|id a|id|id|id|id|]; cbn [cstep].
+  destruct e as [id|id a|id|id|id|id|id|]; cbn [cstep].
   - destruct (task_stage (tasks s) id) as [[| |a]|] eqn:T; try exact HP.
     constructor; cs.
     + intros i st Hin. destruct (task_set_In _ _ _ _ _ Hin) as [[X1 X2]|X]; [subst; exact (A _ _ (task_stage_In _ _ _ T))|exact (A _ _ X)].
@@ -379,6 +382,7 @@ Proof.
       constructor; cs; try assumption.
       intros i st Hin Hst. rewrite zmem_zrem_other; [exact (C _ _ Hin Hst)|].
       intros X. subst i. exact (In_task_stage _ _ _ Hin Hal).
+  - destruct Hal.
   - destruct (timers s >? 0); [|exact HP]. apply P_spawn. revert HP. apply P_ext; reflexivity.
 Qed.
 
@@ -427,7 +431,7 @@ Proof.
   change (zlen (@nil (Z * stage))) with 0 in H. lia.
 Qed.
 
-(* for arbitrary callers of the public Disconnect: the same with the canceled requests counted *)
+(* for arbitrary callers of the public Disconnect / Remove: the same with the given-up slots counted *)
 Theorem quiescent_full_any T mf evs :
   0 <= T ->
   let s := crun (cinit T mf) evs in
@@ -466,6 +470,11 @@ Example witness_script :
 Proof. vm_compute. repeat split. Qed.
 
 (* a canceled request: target 1, the request is disconnected while it dials, its success is ignored *)
+Example remove_example :
+  let s := crun (cinit 2 25) [Registered 1; Registered 2; AddrOk 1 0; DialOk 1; Remove 1; AddrOk 2 0; DialOk 2] in
+  quiescentb s = true /\ zlen (conns s) = 1 /\ canceled s = 1.
+Proof. vm_compute. repeat split. Qed.
+
 Example cancel_example :
   let s := crun (cinit 1 25) [Registered 1; AddrOk 1 0; Disconnect 1; DialOk 1] in
   quiescentb s = true /\ zlen (conns s) = 0 /\ canceled s = 1.
@@ -497,7 +506,7 @@ Lemma sstep_run x e : exists evs, core (fst (sstep x e)) = crun (core x) evs.
 Proof.
   assert (G : forall ev, exists evs, settle (cstep (core x) ev) = crun (core x) evs).
   { intros ev. destruct (settle_run (cstep (core x) ev)) as [l E]. exists (ev :: l). rewrite E. reflexivity. }
-  destruct e as [a| |a|a|k| |]; cbn [sstep].
+  destruct e as [a| |a|a|k| | |k]; cbn [sstep].
   - destruct (first_stage _ _); [apply G|exists []; reflexivity].
   - destruct (first_stage _ _); [apply G|exists []; reflexivity].
   - destruct (first_stage _ _); [apply G|exists []; reflexivity].
@@ -507,6 +516,8 @@ Proof.
   - destruct (lastdisc x); [apply G|exists []; reflexivity].
   - destruct (tgt (core x) =? 1); [|exists []; reflexivity].
     destruct (tasks (core x)) as [|[id st] [|t2 l]]; [exists []; reflexivity|apply G|exists []; reflexivity].
+  - destruct (conns (core x)) as [|c l]; [exists []; reflexivity|].
+    destruct (nth_error _ _) as [[id b]|]; [apply G|exists []; reflexivity].
 Qed.
 
 (* every state the correspondence check visits is a state of the model the theorems speak about *)
